@@ -221,11 +221,14 @@ def run(ctx: Ctx) -> None:
             ctx.corr_compared += 1
             if g != "ok " + enc(escapeHtml(s_)):
                 ctx.mismatch("escapeHtml: implementation and model differ", {"input": s_, "impl": escapeHtml(s_), "model": g})
+        from . import rxtie
+        rxtie.tie_leaf(ctx, drv, quick)      # translated regular expressions + inline leaf rules (autolink, html_inline, entity)
     finally:
         drv.close()
     ctx.partial += [
         "parser_vocab (html off => the parser emits no html_block/html_inline token and only tags of the fixed vocabulary) "
-        "is not yet a theorem of a parser model: it is carried by the T1 vocabulary table (theorems table_tags/table_keys) "
+        "is a theorem only for the modelled inline sub-parser (C04.xmini_no_html: no html_inline token with the option off); for html_block "
+        "and the unmodelled rules it is carried by the T1 vocabulary table (theorems table_tags/table_keys) "
         "and its dynamic twin (tags/keys observed in token streams)",
         "proper nesting of the output tags is C02's balance property pushed through the renderer; it is decided here by the "
         "output lexer (oracle), the lexer round-trip theorem over pieces is not proved",
